@@ -16,7 +16,10 @@ META = dict(
     text=("stepUp/stepDown/stepAny and their d/d2/d3 variants in both precisions, and Function_::Constant/Linear/Polynomial/Sinusoid/Step: "
           "every calcDerivative (orders 1-3, all argument multi-indices at the concrete sizes listed in the evidence) is proved equal to the symbolic "
           "derivative of the transliterated calcValue, end values and C2 junction conditions of the steps, monotonicity and range on [0,1]; for all real "
-          "arguments/coefficients (z3 QF_NRA). Splines (GCVSPL) and float rounding are not decided."),
+          "arguments/coefficients (z3 QF_NRA). Float rounding is not decided. "
+          "Splines: the knot-interval search search_ of gcvspl.cpp is cut each run and proved (CBMC function contract + induction at its goto-loop head; checks/part_c41_spline.py) to return, "
+          "for any knot array of 1 <= n < 2^30 entries, any non-NaN t and any initial guess, L = 0 if t < X(1), L = n if t >= X(n), else 1 <= L < n with X(L) <= t < X(L+1), all indices in bounds; "
+          "the floating-point content of SimTK_splder_/SimTK_gcvspl_ is not decided (native replay only)."),
     note="Assumes real arithmetic; trusts z3/cvc5, transliterator rules (logged), symlib shim incl. nested dual numbers and the (c,s) abstraction of sin/cos.",
     technique="symbolic execution of transliterated real code on nested dual numbers over the reals + SMT (z3 QF_NRA)",
     design_ref="4 C41")
@@ -54,6 +57,33 @@ class Obj:
 
 def main(ctx):
     ctx.level = "proof"
+    # ---------------- gcvspl.cpp (back end A, route M2): CBMC units run in the background of the z3 part ----------------
+    import threading
+    spline_thread = None
+    try:
+        import part_c41_spline as PSPL
+        jobs = []
+        PSPL.add_jobs(ctx, lambda f, *a, **k: jobs.append(lambda: f(ctx, *a, **k)))
+        spline_thread = threading.Thread(target=lambda: parallel(jobs, workers=3))
+        spline_thread.start()
+    except ExtractionError as e:
+        ctx.undecide("extraction (spline part): %s" % e)
+    _SPL["thread"] = spline_thread
+    return main_b(ctx)
+
+
+_SPL = {}
+
+
+def _finish(ctx, replayer=None):
+    """the CBMC units of the spline part must have reported before the verdict is drawn"""
+    th = _SPL.get("thread")
+    if th is not None:
+        th.join()
+    return ctx.finish(replayer) if replayer else ctx.finish()
+
+
+def main_b(ctx):
     x = z3.Real("x")
     unit01 = [x >= 0, x <= 1]
     try:
@@ -62,7 +92,7 @@ def main(ctx):
             stepB[prec] = load_steps(ctx, prec)
     except ExtractionError as e:
         ctx.undecide("extraction: %s" % e)
-        return ctx.finish()
+        return _finish(ctx)
     for prec, B in stepB.items():
         f = B.ns
         U = "step." + prec.replace(" ", "_")
@@ -127,7 +157,7 @@ def main(ctx):
         B.dump_sources()
     except ExtractionError as e:
         ctx.undecide("extraction: %s" % e)
-        return ctx.finish()
+        return _finish(ctx)
 
     class IntList(list):
         def size(self): return len(self)
@@ -207,10 +237,10 @@ def main(ctx):
     ctx.assume("machine arithmetic treated as mathematical (reals)")
     ctx.assume("sin/cos of a real argument enter through one (c,s) pair per distinct argument term with c^2+s^2=1 and d/dt sin = cos*rate, d/dt cos = -sin*rate")
     ctx.assume("asserts / SimTK_ERRCHK argument checks in the cut functions are treated as preconditions (dropped, listed in extraction_report.json)")
-    ctx.not_decided += ["splines (GCVSPL f2c code, data-dependent loops)", "Function arguments sizes/orders beyond the concrete ones enumerated (Linear n<=3, Polynomial <=6 coefficients, orders <=4; Sinusoid orders <=3)",
+    ctx.not_decided += ["Function arguments sizes/orders beyond the concrete ones enumerated (Linear n<=3, Polynomial <=6 coefficients, orders <=4; Sinusoid orders <=3)",
                         "float rounding; Sinusoid orders > 3 (generic pow branch)"]
     ctx.explanation = "%d functions transliterated; %d obligations." % (len(ctx.functions), len(ctx.obligations))
-    return ctx.finish(replayer=lambda ob: replay(ctx, ob))
+    return _finish(ctx, lambda ob: replay(ctx, ob))
 
 
 def power(t, n):
@@ -224,6 +254,9 @@ _EXE = {}
 
 
 def replay(ctx, ob):
+    if ob.unit.startswith("spline."):
+        import part_c41_spline as PSPL
+        return PSPL.replay(ctx, ob)
     if "exe" not in _EXE:
         _EXE["exe"] = native_build(ctx, "c41_replay", os.path.join(VERIF, "replay/c41_replay.cpp"), libs=True)
     m = ob.cex or {}
